@@ -3,7 +3,7 @@
    under the write lock of the shard the SAME key hashes to; removal removes that key from that
    shard; the shard index is hash & (len - 1) (always < len). *)
 From Coq Require Import List String Bool.
-From AM Require Import Rust.Ast Rust.Syntax Gen.CacheMap Gen.LocalMap.
+From AM Require Import Rust.Ast Rust.Syntax Gen.CacheMap Gen.LocalMap Gen.Private.
 Import ListNotations.
 Open Scope string_scope.
 
@@ -77,4 +77,29 @@ Lemma maps_as_modelled :
   keyed_lookup Gen.LocalMap.AssetMap_contains_key "borrow" "contains_key" = true /\
   or_insert_wf Gen.LocalMap.AssetMap_insert "borrow_mut" = true /\
   take_wf Gen.LocalMap.AssetMap_take = true.
+Proof. vm_compute. repeat split. Qed.
+
+(* keys carry the id exactly as given (no normalisation anywhere), so the key a lookup builds and
+   the key an insertion stored agree on equality, hash and shard for the same (id, type) *)
+Definition key_ctor_wf (f : fn_def) (typed : bool) : bool :=
+  match fn_body f with
+  | [EStruct ["Self"] [("id", EPath ["id"]); ("type_id", t)]] =>
+    if typed then match t with ECall (EPath ["TypeId"; "of"]) [] => true | _ => false end
+    else match t with EPath ["type_id"] => true | _ => false end
+  | _ => false
+  end.
+Definition key_borrow_wf (f : fn_def) : bool :=
+  match fn_body f with
+  | [EStruct ["BorrowedKey"] [("id", ERef (EField (EPath ["self"]) "id")); ("type_id", EField (EPath ["self"]) "type_id")]] => true
+  | _ => false
+  end.
+Definition key_to_owned_wf (f : fn_def) : bool :=
+  match fn_body f with
+  | [EStruct ["OwnedKey"] [("id", EMethod (EField (EPath ["self"]) "id") "into" []); ("type_id", EField (EPath ["self"]) "type_id")]] => true
+  | _ => false
+  end.
+Lemma keys_carry_the_id_as_given :
+  key_ctor_wf Gen.Private.BorrowedKey_new_with false = true /\ key_ctor_wf Gen.Private.BorrowedKey_new true = true /\
+  key_ctor_wf Gen.Private.OwnedKey_new_with false = true /\ key_ctor_wf Gen.Private.OwnedKey_new true = true /\
+  key_borrow_wf Gen.Private.OwnedKey_borrow = true /\ key_to_owned_wf Gen.Private.BorrowedKey_to_owned = true.
 Proof. vm_compute. repeat split. Qed.
